@@ -1,4 +1,4 @@
-import FeatModel.Lemmas.C20Frame
+import FeatModel.Lemmas.C20Back
 /-! # C20 — container lifetimes are memory-safe: arrays freed exactly once, no leaks
 
 Theorems about `FeatModel.Pool.step` / `run` / `finalize`, the functions the driver `drv_c20` executes against the
@@ -203,6 +203,34 @@ theorem C20.write_invisible_outside_relatives (s s' : State) (a c : Nat) (cc : C
     (∀ w j i v, step s (.write a w j i v) = .ok s' → s'.slot c = some cc ∧ cc.obs s'.pool = cc.obs s.pool) ∧
     (∀ v, step s (.format a v) = .ok s' → s'.slot c = some cc ∧ cc.obs s'.pool = cc.obs s.pool) :=
   ⟨fun _ _ _ _ h => write_invisible h hsc hn, fun _ h => format_invisible h hsc hn⟩
+
+/-- classification of the operations that replace the contents of an existing container: `write`, `format` and
+    `copy` (`Op.writes`) write IN PLACE; every other operation - clone-into in all five modes (same and cross type),
+    convert-into, move assignment, layout assignment, clear, destroy, ... - REBINDS (releases, then takes new or shared
+    arrays) and never changes the contents of any chunk that survives it -/
+theorem C20.rebinding_ops_keep_chunk_contents (s s' : State) (op : Op) (h : step s op = .ok s')
+    (hw : op.writes = false) :
+    s.pool.length ≤ s'.pool.length ∧
+    ∀ id, id < s.pool.length → ∀ c', get s'.pool id = some c' → ∃ c, get s.pool id = some c ∧ c.vals = c'.vals :=
+  step_back h hw
+
+/-- lifetime operations never change the contents of bystanders, SHARING RELATIVES INCLUDED: after any non-writing
+    operation (e.g. `y.clone(x, mode)` into a non-empty `y` that shares its arrays with `c`, `y.convert(x)`,
+    `y = move(x)`, `y.clear()`, `~y`) every owning container in a slot the operation does not name keeps its slot and
+    reads exactly the same values through every one of its arrays (the reference counts keep the arrays alive) -/
+theorem C20.lifetime_ops_never_change_bystanders (s s' : State) (op : Op) (hi : Inv s) (h : step s op = .ok s')
+    (hw : op.writes = false) (c : Nat) (cc : Cont) (hc : c ∉ op.targets) (hsc : s.slot c = some cc)
+    (hf : cc.foreign = false) : s'.slot c = some cc ∧ cc.obs s'.pool = cc.obs s.pool :=
+  bystander_contents hi h hw hc hsc hf
+
+/-- `a.copy(b, full)` legitimately writes in place: the target keeps exactly its arrays and view flag, no counter
+    changes, and the new values are invisible to every container that is not a sharing relative of the target -/
+theorem C20.copy_writes_in_place (s s' : State) (a b full : Nat) (ca : Cont) (h : step s (.copy a b full) = .ok s')
+    (hsa : s.slot a = some ca) :
+    (∃ ca', s'.slot a = some ca' ∧ ca'.elems = ca.elems ∧ ca'.inds = ca.inds ∧ ca'.foreign = ca.foreign) ∧
+    (∀ j, count s'.pool j = count s.pool j) ∧
+    (∀ c cc, c ≠ a → s.slot c = some cc → ¬ Shares s a c → s'.slot c = some cc ∧ cc.obs s'.pool = cc.obs s.pool) :=
+  copy_in_place h hsa
 
 /-- the history that leaked two chunks before /repo commit eef945341 (one layout object assigned twice, everything
     destroyed; former finding F-C20-1) now ends with an empty pool and a clean `finalize` -/
